@@ -248,8 +248,8 @@ func NewTypecast(scope *types.Scope, imports util.ImportNames, t types.Type, inn
 	var expr string
 	switch typ := util.DerefPtr(t).(type) {
 	case *types.Named:
-		// If the type is defined within the current package.
-		if scope.Lookup(typ.Obj().Name()) != nil {
+		// If the type is defined within the current package, or predeclared as error is.
+		if typ.Obj().Pkg() == nil || scope.Lookup(typ.Obj().Name()) != nil {
 			expr = typ.Obj().Name()
 		} else if pkgName, ok := imports.LookupName(typ.Obj().Pkg().Path()); ok {
 			expr = fmt.Sprintf("%v.%v", pkgName, typ.Obj().Name())
